@@ -4,18 +4,25 @@ Hand-written model of `src/pybes3/_cache_numba.py` (`cache_auto_clear`, `check_n
 (DESIGN.md §6 C17).  Mathlib-free; executed by `Driver/Cache.lean`.
 
 State: per geometry table its modification time and content version; the set of cache files, each with
-its owning table, its modification time and the table version it was compiled from (the last is *not*
+its owning table, its kind, its modification time and the table version it was compiled from (the last is *not*
 observable by the code — it is what the property is about); processes with the table version they hold
 in memory; a logical clock that ticks on every operation.
+
+numba keeps two kinds of files per cached kernel: one *index* file (`<module>.<kernel>-<line>.py<ver>.nbi`), rewritten
+every time the kernel is compiled for a new argument signature, and one *data* file per signature (`….<n>.nbc`) holding
+the machine code - the only place where table values are frozen in.  Both kinds match the glob `<module>.*.nb[ci]`.
 -/
 namespace Pybes3Verif.Cache
 
 structure CacheFile where
   table : Nat        -- which table's glob matches this file (0 = mdc, 1 = emc)
-  name : Nat         -- file identity within the table's __pycache__ (glob order = ascending name)
+  kernel : Nat       -- which cached kernel of that module
+  sig : Option Nat   -- `none`: the kernel's index file (*.nbi); `some s`: the data file (*.nbc) of argument signature s
   mtime : Nat
-  builtFrom : Nat    -- version of the table whose values are frozen into the kernel (ghost)
+  builtFrom : Nat    -- data files: version of the table whose values are frozen into the code (ghost); index files: 0, unused
   deriving Repr, DecidableEq
+
+def CacheFile.isData (f : CacheFile) : Bool := f.sig.isSome
 
 structure Proc where
   loaded : List (Nat × Nat)   -- (table, version held in memory); absent = not loaded yet
@@ -37,9 +44,10 @@ inductive Op
   | spawn
   /-- process `p` loads table `t` into memory (`_ensure_loaded`) if it has not yet -/
   | load (p t : Nat)
-  /-- first use of kernel `name` of table `t` in process `p`: load the table if necessary, then either
-  reuse the cache file (if present) or compile from the version in memory and write the file -/
-  | firstUse (p t name : Nat)
+  /-- first use of kernel `k` of table `t` with argument signature `sg` in process `p`: load the table if necessary, then
+  either reuse the data file of that signature (if present) or compile from the version in memory, write the data file
+  and (re)write the kernel's index file -/
+  | firstUse (p t k sg : Nat)
   /-- `import pybes3` in a fresh interpreter: `check_numba_cache()`, interrupted after `crash` removals -/
   | importCheck (crash : Option Nat)
   /-- `clear_numba_cache()` -/
@@ -48,7 +56,7 @@ inductive Op
 
 def filesOf (s : St) (t : Nat) : List CacheFile := s.files.filter (fun f => f.table == t)
 
-def minMtime (fs : List CacheFile) : Nat := fs.foldl (fun m f => min m f.mtime) (fs.headD ⟨0, 0, 0, 0⟩).mtime
+def minMtime (fs : List CacheFile) : Nat := fs.foldl (fun m f => min m f.mtime) (fs.headD ⟨0, 0, none, 0, 0⟩).mtime
 
 /-- `cache_auto_clear(sources = table t, caches = glob of t, force)`; `budget` = removals still possible
 before the interruption (`none` = unlimited). Returns the new file list and the remaining budget. -/
@@ -83,15 +91,21 @@ def step (s : St) (op : Op) : St :=
   | .load p t =>
     { s with procs := s.procs.mapIdx (fun i pr =>
         if i = p ∧ (lookupLoaded pr t).isNone then ⟨pr.loaded ++ [(t, s.tableVersion t)]⟩ else pr) }
-  | .firstUse p t name =>
+  | .firstUse p t k sg =>
     match s.procs[p]? with
     | none => s
     | some pr =>
       let v := (lookupLoaded pr t).getD (s.tableVersion t)
       let procs := s.procs.mapIdx (fun i q =>
         if i = p ∧ (lookupLoaded q t).isNone then ⟨q.loaded ++ [(t, s.tableVersion t)]⟩ else q)
-      if s.files.any (fun f => f.table == t && f.name == name) then { s with procs := procs }   -- cache hit: file reused as is
-      else { s with procs := procs, files := s.files ++ [⟨t, name, s.clock, v⟩] }
+      if s.files.any (fun f => f.table == t && f.kernel == k && f.sig == some sg) then { s with procs := procs }   -- cache hit: files reused as they are
+      else
+        -- the index file is rewritten (new modification time) or created; the new data file is written
+        let isIdx := fun (f : CacheFile) => f.table == t && f.kernel == k && f.sig == none
+        let withIndex :=
+          if s.files.any isIdx then s.files.map (fun f => if isIdx f then { f with mtime := s.clock } else f)
+          else s.files ++ [⟨t, k, none, s.clock, 0⟩]
+        { s with procs := procs, files := withIndex ++ [⟨t, k, some sg, s.clock, v⟩] }
   | .importCheck crash => { s with files := sweep s false crash }
   | .forceClear => { s with files := sweep s true none }
 
@@ -102,7 +116,7 @@ def run (ops : List Op) : St := ops.foldl step init
 /-- observable criterion: no cache file is older than its table -/
 def MtimeFresh (s : St) : Prop := ∀ f ∈ s.files, s.tableMtime f.table ≤ f.mtime
 
-/-- what the property is about: every cache file was compiled from the current table -/
-def ContentFresh (s : St) : Prop := ∀ f ∈ s.files, f.builtFrom = s.tableVersion f.table
+/-- what the property is about: every compiled kernel on disk (data file) was compiled from the current table -/
+def ContentFresh (s : St) : Prop := ∀ f ∈ s.files, f.isData = true → f.builtFrom = s.tableVersion f.table
 
 end Pybes3Verif.Cache
